@@ -47,8 +47,8 @@ def check(ctx):
     ctx.assume("float rounding of the implementation is out of scope: literals are read exactly from their source text")
 
     # ---- C13-a water
-    par = only(run(ctx, WATER + "b_water_McCain"), "b_water_McCain")
-    der = only(run(ctx, WATER + "b_water_McCain_dp"), "b_water_McCain_dp")
+    par = only(run(ctx, WATER + "b_water_McCain"), "b_water_McCain", ctx, "C13-a")
+    der = only(run(ctx, WATER + "b_water_McCain_dp"), "b_water_McCain_dp", ctx, "C13-a")
     f = P.func(WATER + "b_water_McCain_dp")
     ctx.identity(
         "C13-a", WATER + "b_water_McCain_dp:return", f.where(),
@@ -78,8 +78,8 @@ def check(ctx):
             )
 
     # ---- C13-c dBo/dRs
-    par = only(run(ctx, OIL + "b_o_bubblepoint_Standing"), "b_o_bubblepoint_Standing")
-    der = only(run(ctx, OIL + "db_o_dgor_Standing"), "db_o_dgor_Standing")
+    par = only(run(ctx, OIL + "b_o_bubblepoint_Standing"), "b_o_bubblepoint_Standing", ctx, "C13-c")
+    der = only(run(ctx, OIL + "db_o_dgor_Standing"), "db_o_dgor_Standing", ctx, "C13-c")
     f = P.func(OIL + "db_o_dgor_Standing")
     ctx.identity(
         "C13-c", OIL + "db_o_dgor_Standing:return", f.where(),
@@ -91,7 +91,7 @@ def check(ctx):
     q = OIL + "oil_compressibility_Standing"
     f = P.func(q)
     arms = _arms(ctx, q, opaque={GAS + "b_factor_DAK"})
-    spivey = only(run(ctx, OIL + "oil_compressibility_undersat_Spivey"), "oil_compressibility_undersat_Spivey")
+    spivey = only(run(ctx, OIL + "oil_compressibility_undersat_Spivey"), "oil_compressibility_undersat_Spivey", ctx, "C13-e")
     same = set(arms) == set(parent)
     ctx.check(
         same, "C13-e", q + ":branch-predicate", f.where(),
@@ -113,7 +113,7 @@ def check(ctx):
                 continue
             rs = parent[(k, c)][0]  # Rs(p) below the bubble point
             drs = nf.diff(rs, "pressure")
-            bo = only(run(ctx, OIL + "b_o_bubblepoint_Standing"), "b_o_bubblepoint_Standing").value.nf
+            bo = only(run(ctx, OIL + "b_o_bubblepoint_Standing"), "b_o_bubblepoint_Standing", ctx, "C13-e").value.nf
             dbo = nf.subst_sym(nf.diff(bo, "solution_gor_initial"), {"solution_gor_initial": rs})
             bg_atoms = [a for a in nf.fn_atoms(val) if a[1] == GAS + "b_factor_DAK"]
             want = [nf.key(nf.sym(n)) for n in ("temperature", "pressure", "temperature_pseudocritical", "pressure_pseudocritical", "temperature_standard", "pressure_standard")]
